@@ -206,6 +206,49 @@ func countedLoop(l *loopInfo) (string, bool) {
 				}
 			}
 			return !l.body[t.Block()]
+		case *ssa.UnOp:
+			// a load of a local cell (a variable whose address was taken before the loop, `errors.As(err, &ea)`)
+			// that nothing in the loop writes or hands out
+			if al, ok := t.X.(*ssa.Alloc); ok && t.Op == token.MUL && l.body[t.Block()] && al.Referrers() != nil {
+				for _, ref := range *al.Referrers() {
+					if ref.Block() == nil || !l.body[ref.Block()] {
+						continue
+					}
+					if u, isLoad := ref.(*ssa.UnOp); isLoad && u.Op == token.MUL {
+						continue
+					}
+					return false
+				}
+				return true
+			}
+			// a load of a field of an invariant object, re-read on every turn, in a loop that calls nothing
+			// and stores to no field of that name
+			if fa, ok := t.X.(*ssa.FieldAddr); ok && t.Op == token.MUL && l.body[t.Block()] && invariant(fa.X) {
+				o, f := fieldOwner(fa.X.Type(), fa.Field)
+				quiet := true
+				for b := range l.body {
+					for _, in := range b.Instrs {
+						switch x := in.(type) {
+						case *ssa.Store:
+							if fa2, ok := x.Addr.(*ssa.FieldAddr); ok {
+								if o2, f2 := fieldOwner(fa2.X.Type(), fa2.Field); o2 == o && f2 == f {
+									quiet = false
+								}
+							} else if _, isAl := x.Addr.(*ssa.Alloc); !isAl {
+								quiet = false
+							}
+						case ssa.CallInstruction:
+							if _, isB := x.Common().Value.(*ssa.Builtin); !isB {
+								quiet = false
+							}
+						}
+					}
+				}
+				if quiet {
+					return true
+				}
+			}
+			return !l.body[t.Block()]
 		case ssa.Instruction:
 			return !l.body[t.Block()]
 		}
@@ -905,6 +948,7 @@ func c03RValid(c *Ctx, r *Report) {
 func c03Reflect(c *Ctx, r *Report) {
 	c03RValid(c, r)
 	c03RIface(c, r)
+	c03TypedNil(c, r)
 	a := c.anchors()
 	if a.reflArgs == nil || a.reflectRes == nil {
 		r.undecided("C03.REFLECT", "anchor: reflection argument builder", token.NoPos, "not found")
